@@ -390,6 +390,23 @@ func tokenGroup(rng *rand.Rand) [][6]string {
 			out = append(out, v)
 		}
 	}
+	// one field unset (nil) as the context, each other field then varied: an id that
+	// leaves a field out whenever ANOTHER field is unset shows here
+	for n := 0; n < 6; n++ {
+		ctx := base
+		ctx[n] = nilUUID
+		for f := 0; f < 6; f++ {
+			if f == n {
+				continue
+			}
+			v := ctx
+			v[f] = randUUID(rng)
+			out = append(out, v)
+			v = ctx
+			v[f] = nilUUID
+			out = append(out, v)
+		}
+	}
 	// two fields changed, all fields changed, all nil
 	v := base
 	v[rng.Intn(3)] = randUUID(rng)
@@ -617,6 +634,40 @@ func generate(rng *rand.Rand, tier string) []interface{} {
 		add(input{Kind: "rosters", Label: "regroup", Rosters: rg})
 	}
 	add(malformedRosters())
+	{
+		// rosters whose caller goes on editing the slice it passed to NewRoster
+		na := 10
+		if !quick {
+			na = 60
+		}
+		var rs [][]mem
+		var eds [][]editIn
+		for i := 0; i < na; i++ {
+			r := randomRoster(rng, 0, 6)
+			if i == 0 {
+				r = plainRoster(edKeys(0, 3))
+			}
+			var es []editIn
+			n := len(r)
+			for k := 0; k < 1+rng.Intn(3); k++ {
+				switch {
+				case n >= 2 && rng.Intn(2) == 0:
+					a := rng.Intn(n)
+					b := (a + 1 + rng.Intn(n-1)) % n
+					es = append(es, editIn{I: a, J: b})
+				default:
+					m := mem{K: 900 + rng.Intn(50)}
+					if rng.Intn(2) == 0 {
+						m.S = []int{950 + rng.Intn(40)}
+					}
+					es = append(es, editIn{I: rng.Intn(n), Set: &m})
+				}
+			}
+			rs = append(rs, r)
+			eds = append(eds, es)
+		}
+		add(input{Kind: "alias", Label: "caller-edits", Rosters: rs, Edits: eds})
+	}
 
 	// ---- trees
 	{
@@ -867,6 +918,14 @@ func corpus() []interface{} {
 			{{K: 0, S: []int{2}}, {K: 1}},
 			{{K: 0}, {K: 1, S: []int{2}}},
 		}},
+		input{Kind: "tokens", Label: "fields", Tokens: [][6]string{
+			{"11111111111111111111111111111111", "22222222222222222222222222222222", "33333333333333333333333333333333",
+				nilUUID, "55555555555555555555555555555555", "66666666666666666666666666666666"},
+			{"11111111111111111111111111111111", "22222222222222222222222222222222", "88888888888888888888888888888888",
+				nilUUID, "55555555555555555555555555555555", "66666666666666666666666666666666"},
+		}},
+		input{Kind: "alias", Label: "caller-edits", Rosters: [][]mem{plainRoster(edKeys(0, 3))},
+			Edits: [][]editIn{{{I: 0, J: 2}}}},
 		input{Kind: "tokens", Label: "derived",
 			Tokens: [][6]string{
 				{"11111111111111111111111111111111", "22222222222222222222222222222222", "33333333333333333333333333333333",
